@@ -119,14 +119,16 @@ Fixpoint exec (s : xstmt) (cur : option xexc) (env : xenv) (k : xenv -> xst -> x
       end
   | SIf t a b => match evt env t with Some true => exec a cur env k | Some false => exec b cur env k | None => XBad end
   | STry body hs orelse fin =>
+      (* while a [finally] runs because of an exception in flight, that exception is the one a bare [raise] re-raises *)
+      let incur := fun st => match st with StExc e => Some e | _ => cur end in
       exec body cur env (fun env1 st1 =>
         match st1 with
         | StExc e =>
             exec_h hs e env1 (fun env2 st2 =>
-              exec fin cur env2 (fun env3 st3 => k env3 (match st3 with StN => st2 | _ => st3 end)))
+              exec fin (incur st2) env2 (fun env3 st3 => k env3 (match st3 with StN => st2 | _ => st3 end)))
         | StN =>
             exec orelse cur env1 (fun env2 st2 =>
-              exec fin cur env2 (fun env3 st3 => k env3 (match st3 with StN => st2 | _ => st3 end)))
+              exec fin (incur st2) env2 (fun env3 st3 => k env3 (match st3 with StN => st2 | _ => st3 end)))
         | StRet _ =>
             exec fin cur env1 (fun env3 st3 => k env3 (match st3 with StN => st1 | _ => st3 end))
         end)
@@ -161,6 +163,22 @@ Definition env_unentered (exc : bool) : xenv := fun x =>
   | _ => None
   end.
 Definition exit_tree_unentered (prog : xstmt) (exc : bool) : xtree := exec prog None (env_unentered exc) (kfin exc).
+
+(** Walk a tree with an oracle of results (0 = ok, 1 = OSError, 2 = FileNotFoundError; a close never reports 2):
+    the calls performed with their results, and how it ends (0 returns, 1 raises, 2 outside the model).  Used to
+    compare the interpreter with CPython running the same program against mock objects. *)
+Fixpoint walk (t : xtree) (o : list nat) : list (list nat) * nat :=
+  let r := hd 0 o in
+  match t with
+  | XDone b => ([], if b then 1 else 0)
+  | XBad => ([], 2)
+  | XClose ok fl =>
+      let '(l, c) := walk (if Nat.eqb r 1 then fl else ok) (tl o) in ([0; if Nat.eqb r 1 then 1 else 0] :: l, c)
+  | XReplace ok fl ne =>
+      let '(l, c) := walk (match r with 0 => ok | 1 => fl | _ => ne end) (tl o) in ([1; Nat.min r 2] :: l, c)
+  | XUnlink ok fl ne =>
+      let '(l, c) := walk (match r with 0 => ok | 1 => fl | _ => ne end) (tl o) in ([2; Nat.min r 2] :: l, c)
+  end.
 
 (** ** A protocol: exclusive open + the two exit trees (body returned / body raised) *)
 Record xproto := { x_excl : bool; x_ok : xtree; x_exc : xtree }.
